@@ -97,6 +97,18 @@ template <class Dom> struct fuzz {
   }
   bool step_op(Dom &d, cset &cs, int depth) {
     if (cs.empty()) return true;
+    if (getenv("EXTRAOPS") && r.in(0, 5) == 0) {   // project / expand / rename / forget(vector): the operations the other steps never call
+      int q = r.in(0, 3), x = r.in(0, NV - 1), y = (x + r.in(1, NV - 1)) % NV; std::ostringstream o2;
+      if (q == 0) { std::vector<z_var> keep; o2 << "project {"; for (int i = 0; i < NV; i++) if (i == x || r.in(0, 1)) { keep.push_back(v[i]); o2 << " " << v[i].name().str(); } o2 << " }"; if (use_bool) { keep.push_back(bv[0]); keep.push_back(bv[1]); } log(o2.str());
+        d.project(keep); return check(d, cs, "project"); }
+      if (q == 1) { o2 << "forget " << v[y].name().str() << "; expand(" << v[x].name().str() << ", " << v[y].name().str() << ")"; log(o2.str());
+        d -= v[y]; d.expand(v[x], v[y]); cset n; for (auto s : cs) { s[y] = s[x]; n.insert(s); } for (auto s : cs) { n.insert(s); if (n.size() > CAP) break; }   // y takes any value x can take: y = x and, for two states, swapped
+        cset n2; for (auto s : cs) { s[y] = s[x]; n2.insert(s); } cs = n2; return check(d, cs, "expand"); }
+      if (q == 2) { o2 << "forget " << v[y].name().str() << "; rename " << v[x].name().str() << " -> " << v[y].name().str(); log(o2.str());
+        d -= v[y]; d.rename({v[x]}, {v[y]}); cset n; for (auto s : cs) { s[y] = s[x]; s[x] = r.in(-6, 6); n.insert(s); } cs = n; return check(d, cs, "rename"); }
+      { o2 << "forget {" << v[x].name().str() << ", " << v[y].name().str() << "}"; log(o2.str()); d.forget({v[x], v[y]});
+        cset n; for (auto s : cs) { s[x] = r.in(-6, 6); s[y] = r.in(-6, 6); n.insert(s); } cs = n; return check(d, cs, "forget vector"); }
+    }
     int k = r.in(0, 99);
     std::ostringstream os;
     if (use_bool && r.in(0, 99) < 35) {
